@@ -215,7 +215,9 @@ fn run_once_here(c: &SimCase, r: &RunSpec) -> RunOut {
         if r.name == "det" {
             // the repeat run goes through Clone (clone_from into a queue parsed from another trace, then
             // clone): a caller that parses once and simulates copies must see the same simulation
-            let mut other = parse_trace("0,s\n5,r\n", network);
+            let mut other = parse_trace("0,s\n5,r\n7,s\n9,s\n", network);
+            // ... a queue that has been used: a capped run leaves events in flight in its heaps
+            let _ = sim(&[], &[], &mut other, delay, 3, false);
             other.clone_from(&sq);
             sq = other.clone();
         }
